@@ -294,6 +294,30 @@ pub fn gen_select(seed: u64, index: u64) -> KPlan {
             _ => KEv::Route { n: 1, last_override: None },
         };
         events.push(ev);
+        // standing queue on one link: a low RTT floor, then a long run of elevated samples (the
+        // recent floor lifts while the long-term one remembers), a published CC target and a
+        // backlog between the two in-flight caps
+        if r.chance(0.05) {
+            let l = link;
+            let low = *r.pick(&[20u64, 40, 60]);
+            for _ in 0..r.range(18, 45) {
+                events.push(KEv::RttSample { link: l, rtt: low + r.range(0, 4) });
+            }
+            let high = low * r.range(3, 6);
+            for _ in 0..r.range(26, 45) {
+                events.push(KEv::RttSample { link: l, rtt: high + r.range(0, 9) });
+            }
+            events.push(KEv::SetGlue { link: l, weak: false, loss_degraded: false, cc_target_bps: *r.pick(&[1_000_000u64, 4_000_000, 8_000_000]) });
+            events.push(KEv::Inbound { link: l });
+            events.push(KEv::Send { link: l, n: r.range(5, 140) as u32 });
+            for other in 0..n_links {
+                if other != l {
+                    events.push(KEv::Inbound { link: other });
+                }
+            }
+            events.push(KEv::Route { n: r.range(1, 6) as u32, last_override: Some(l as i64) });
+            events.push(KEv::Route { n: r.range(1, 6) as u32, last_override: None });
+        }
         // tempting traces for the latch: backlog, proof, silence, then closely spaced selects
         if r.chance(0.10) {
             let l = link;
